@@ -2,6 +2,7 @@ import PoxModel.Base.Proto
 import PoxModel.Model.CodecOF
 import PoxModel.Model.CodecMatch
 import PoxModel.Model.CodecNXM
+import PoxModel.Model.CodecNX
 open Pox Pox.Proto Pox.Layout Pox.CodecOF
 
 /-! Line-protocol driver for C01.  Requests:
@@ -220,6 +221,62 @@ def handleNxm (j : J) : Except String J := do
                   ("entries", J.arr (ds.map fun d => J.arr [J.ofNat d.type, J.ofBytes d.value,
                      (match d.mask with | some m => J.ofBytes m | none => J.null)]))])
 
+def entriesFromJ (j : J) : Except String (List Pox.CodecNXM.Entry) := do
+  (← j.asArr).mapM fun e => do
+    pure (⟨← e.nat "type", ← e.bytes "value", ← optBytesJ e "mask", ← e.boolean "force"⟩ : Pox.CodecNXM.Entry)
+
+def entriesToJ (es : List Pox.CodecNXM.Entry) : J :=
+  J.arr (es.map fun d => J.arr [J.ofNat d.type, J.ofBytes d.value, (match d.mask with | some m => J.ofBytes m | none => J.null)])
+
+def actionsToJ (xs : List (Elem depth)) : J :=
+  match recToJ depth actionsLayout ⟨[], .items xs⟩ with
+  | J.obj kv => (match kv.find? (·.1 = "tail") with | some (_, t) => t | none => J.null)
+  | _ => J.null
+
+open Pox.CodecNX in
+/-- {"op":"nx_flow_mod","vals":{…},"match":[entries],"actions":[…],"trailer":hex} -/
+def handleNxFlowMod (j : J) : Except String J := do
+  let v ← j.get "vals"
+  let acts ← recFromJ depth actionsLayout (J.mk [("vals", J.mk []), ("tail", ← j.get "actions")])
+  let xs := match acts.tail with | .items xs => xs | _ => []
+  let m : NxFlowMod (Elem depth) :=
+    ⟨← v.nat "version", ← v.nat "header_type", ← v.nat "xid", ← v.nat "vendor", ← v.nat "subtype", ← v.nat "cookie",
+     ← v.nat "command", ← v.nat "table_id", ← v.nat "idle_timeout", ← v.nat "hard_timeout", ← v.nat "priority",
+     ← v.nat "buffer_id", ← v.nat "out_port", ← v.nat "flags", ← entriesFromJ (← j.get "match"), xs⟩
+  let trailer ← j.bytes "trailer"
+  match encNxFlowMod codec m with
+  | none => pure (J.mk [("pack", J.null)])
+  | some bs =>
+    let hdr := match hdrLen nxfmL bs with | some n => J.ofNat n | none => J.null
+    match decNxFlowMod codec (bs ++ trailer) with
+    | none => pure (J.mk [("pack", J.ofBytes bs), ("hdr", hdr), ("dec", J.str "decode-failed")])
+    | some (q, rest) =>
+      pure (J.mk [("pack", J.ofBytes bs), ("hdr", hdr), ("len", J.ofNat bs.length),
+        ("dec", J.mk [("command", J.ofNat q.command), ("table_id", J.ofNat q.table_id), ("cookie", J.ofNat q.cookie),
+                      ("buffer_id", J.ofNat q.buffer_id), ("flags", J.ofNat q.flags), ("match", entriesToJ q.match_),
+                      ("actions", actionsToJ q.actions), ("rest", J.ofBytes rest)])])
+
+open Pox.CodecNX in
+/-- {"op":"nxt_packet_in","vals":{…},"match":[entries],"data":hex,"trailer":hex} -/
+def handleNxPacketIn (j : J) : Except String J := do
+  let v ← j.get "vals"
+  let p : NxPacketIn :=
+    ⟨← v.nat "version", ← v.nat "header_type", ← v.nat "xid", ← v.nat "vendor", ← v.nat "subtype", ← v.nat "buffer_id",
+     ← v.nat "total_len", ← v.nat "reason", ← v.nat "table_id", ← v.nat "cookie", ← entriesFromJ (← j.get "match"),
+     ← j.bytes "data"⟩
+  let trailer ← j.bytes "trailer"
+  match encNxPacketIn p with
+  | none => pure (J.mk [("pack", J.null)])
+  | some bs =>
+    let hdr := match hdrLen nxpiL bs with | some n => J.ofNat n | none => J.null
+    match decNxPacketIn (bs ++ trailer) with
+    | none => pure (J.mk [("pack", J.ofBytes bs), ("hdr", hdr), ("dec", J.str "decode-failed")])
+    | some (q, rest) =>
+      pure (J.mk [("pack", J.ofBytes bs), ("hdr", hdr), ("len", J.ofNat bs.length),
+        ("dec", J.mk [("buffer_id", J.ofNat q.buffer_id), ("total_len", J.ofNat q.total_len), ("reason", J.ofNat q.reason),
+                      ("table_id", J.ofNat q.table_id), ("cookie", J.ofNat q.cookie), ("match", entriesToJ q.match_),
+                      ("data", J.ofBytes q.data), ("rest", J.ofBytes rest)])])
+
 /-- {"op":"fm_data","rec":<ofp_flow_mod record>,"data":null|{"buffer_id","in_port","total_len","data"},"xb","xp"}:
     the messages `ofp_flow_mod.pack()` returns when `data` is a packet-in (`CodecOF.fmPack`) -/
 def handleFmData (j : J) : Except String J := do
@@ -278,6 +335,8 @@ def handle (j : J) : Except String J := do
   else if op = "packet_out" then handlePacketOut j
   else if op = "stats" then handleStats j
   else if op = "fm_data" then handleFmData j
+  else if op = "nx_flow_mod" then handleNxFlowMod j
+  else if op = "nxt_packet_in" then handleNxPacketIn j
   else if op = "match" then handleMatch j
   else if op = "nxm" then handleNxm j
   else throw s!"unknown op {op}"
